@@ -24,7 +24,7 @@ BOUNDS = {
     'quick': 'tsk_treeseq_general_stat, state_dim = output_dim = 1, identity summary function, weights = indicator of two sample '
              'sets (all samples / all but the first), branch / node / site mode, polarised on/off, span_normalise off, windows [0,L] and [0,b,L] '
              'with b a solver variable; every valid 3-node 2-edge tree sequence class (branch and node mode, 2 sample profiles), and the fixed 5-tree table '
-             'with one site at a symbolic position and 2 mutations (alleles "C" or "AT" over ancestral "A"; all three modes)',
+             'with one site at a symbolic position and 2 mutations (alleles "A" or "C" over ancestral "AT"; all three modes)',
     'thorough': 'plus site mode on all 3-node classes and branch/node mode on 4-node 3-edge classes (time-boxed)',
 }
 OUTSIDE = ['every statistic that divides or uses non-integer weights: span_normalise=True, diversity, Fst, Tajimas_D, f-statistics, '
